@@ -787,7 +787,11 @@ func (cs *ContractSet) loadContractFile(path string, pkgPath string, trusted boo
 			}
 			n := 0
 			fmt.Sscanf(fields[2], "%d", &n)
-			src := strings.TrimSpace(strings.SplitN(line, fields[2], 2)[1])
+			// the expression follows "<callee> <ordinal>" (a tag such as C17 may contain the digit)
+			src := ""
+			if k := strings.Index(line, fields[1]+" "+fields[2]); k >= 0 {
+				src = strings.TrimSpace(line[k+len(fields[1])+1+len(fields[2]):])
+			}
 			cl := &Clause{Kind: kw, Tags: tags, Src: src, Loop: n, File: path, Line: ln + 1, Callee: fields[1], Name: fmt.Sprintf("%s:%s#%d", kw, fields[1], n)}
 			cur.Clauses = append(cur.Clauses, cl)
 			lastClause, lastDef = cl, nil
